@@ -402,6 +402,13 @@ def call_hg(H, op):
     return MH.call(H, op)
 
 
+def _members1(ms):
+    """member container for a bulk format: a list — unless a label is a tuple; then a frozenset, which the format
+    detection always reads as a member set (a list or tuple that starts with a tuple label is read as (members, id[, attrs]):
+    DESIGN 13.6, tuple labels and the list formats — not what C07 is about)"""
+    return frozenset(ms) if any(isinstance(m, tuple) for m in ms) else ms
+
+
 def _attrs_of(op):
     return {k: mk(v) for k, v in op.get("attr", {}).items()}
 
@@ -450,8 +457,8 @@ def call_sc(H, op):
         return H.add_simplex([dec_id(x) for x in op["members"]], **kw, **_attrs_of(op))
     if name == "add_simplices_from":
         if op["fmt"] == 1:
-            return H.add_simplices_from([[dec_id(x) for x in it["members"]] for it in op["items"]])
-        return H.add_simplices_from([([dec_id(x) for x in it["members"]], dec_id(it["idx"]),
+            return H.add_simplices_from([_members1([dec_id(x) for x in it["members"]]) for it in op["items"]])
+        return H.add_simplices_from([(_members1([dec_id(x) for x in it["members"]]), dec_id(it["idx"]),
                                       {k: mk(v) for k, v in it.get("attr", {}).items()}) for it in op["items"]])
     if name == "remove_simplex_id":
         return H.remove_simplex_id(dec_id(op["e"]))
